@@ -265,7 +265,7 @@ pub fn run(out: &mut Out, tier: &str, seed: u64) {
     // what a lazy iterator or get hands out borrows from the INPUT (lifetime 'de), not from the iterator: keys and
     // values are read after the iterator is gone and the allocator has been churned, for every carrier and for
     // documents on both sides of the 24-byte inline limit of FastStr
-    for doc in ["{\"kkkk\":1}", "{\"k\":[1,2],\"m\":\"v\"}", "[1,\"ab\",[3]]", "{\"key_longer_than_the_inline_limit\":[10,20,30],\"second\":{\"x\":\"yyyyyyyyyyyyyyyyyyyyyyyyyyyy\"}}", "{\"a\":{\"b\":1}}", "[[1,2],[3,4]]"] {
+    for doc in ["{\"kkkk\":1}", "{\"k\":[1,2],\"m\":\"v\"}", "[1,\"ab\",[3]]", "{\"key_longer_than_the_inline_limit\":[10,20,30],\"second\":{\"x\":\"yyyyyyyyyyyyyyyyyyyyyyyyyyyy\"}}", "{\"a\":{\"b\":1}}", "[[1,2],[3,4]]", "{\"pad\":\"pppppppppppppppppppppppppppppppppp\",\"o\":{\"kk\":1},\"a\":[1,2]}", "[\"pppppppppppppppppppppppppppppppppp\",{\"k\":{\"j\":true}},[[5]]]"] {
         let churn = || {
             let junk: Vec<Vec<u8>> = (0..64).map(|i| vec![0xC7u8.wrapping_add(i as u8 % 3); 16 + (i % 5) * 8]).collect();
             junk.len()
